@@ -48,6 +48,17 @@ for pid in ["C01", "C02", "C03", "C04"]:
         "C04: a motion run is counted over accepted frames since the previous recording stopped (the statement's own anchor: counter reset on any motionless frame and on stop)"],
         "outside_claim": MP_OUT, "stubs_doc": MP_STUBS, "jobs": mp_jobs()}
 
+LL = "github.com/TheCacophonyProject/thermal-recorder/loglimiter"
+specs["C20"] = {"property": "C20",
+    "explanation": "Bounded symbolic verification of loglimiter/loglimiter.go (SSA->SMT). Inductive step: an arbitrary limiter state (nothing printed yet, or any previous message out of a pool of 3 distinct strings and any previous instant), symbolic interval > 0, one Print or Printf of a symbolic message at a symbolic instant: the message is suppressed iff it equals the last printed message and now - lastPrint < interval (exact boundary included), a suppressed repeat leaves the state unchanged, a printed message is logged once and unmodified and becomes the reference. time.Time is modelled as 128-bit nanoseconds with Sub's int64 saturation (zero Time start). BMC: K calls from New() with a non-decreasing clock against a monitor written from the statement.",
+    "assumptions": COMMON_ASSUME + ["instants within +-146 years of 1970", "messages drawn from a pool of 3 distinct strings (equality is all the limiter observes)", "fmt.Sprintf(\"%s\", s) = s (formatting is not the subject)"],
+    "outside_claim": ["message contents beyond equality", "time.Time monotonic-clock readings (harness clock has none)"],
+    "stubs_doc": ["log.Print -> harness recorder (natively: log.SetOutput to a buffer)", "nowFunc -> harness clock", "fmt.Sprintf -> identity on \"%s\""],
+    "jobs": [
+      {"name": "step", "pkg": "loglimiter", "harness": "loglimiter", "entry": "ZZ_C20_step", "grid": {}, "stubs": {"log.Print": "zzLogPrint"}},
+      {"name": "bmc", "pkg": "loglimiter", "harness": "loglimiter", "entry": "ZZ_C20_bmc", "grid": {"K": [5]}, "grid_thorough": {"K": [8]}, "stubs": {"log.Print": "zzLogPrint"}}
+    ]}
+
 os.makedirs("/verif/checks", exist_ok=True)
 for pid, sp in specs.items():
     json.dump(sp, open(f"/verif/checks/{pid}.json", "w"), indent=1)
